@@ -63,6 +63,23 @@ Definition setup_names (name : list Z) : list Z * list Z :=
 Definition allowed_input (name : list Z) : bool :=
   zlist_eqb (suffix name) s_rtdc || zlist_eqb (suffix name) s_tdms.
 
+(* setup_task_paths as a whole, for one requested output name and the names
+   of the input files (same directory): after the suffix correction the
+   output path must not be one of the inputs - the task refuses to run
+   (ValueError) - otherwise the output and the temporary name are returned;
+   these are the only two paths setup unlinks. *)
+Definition setup_paths (inputs : list (list Z)) (name : list Z)
+  : option (list Z * list Z) :=
+  let o := normalize_out name in
+  if existsb (zlist_eqb o) inputs then None else Some (o, temp_of o).
+
+(* flat result: [-2] when refused, else out ++ [-1] ++ temp *)
+Definition setup_paths_flat (q : list Z * list Z) : list Z :=
+  match setup_paths [fst q] (snd q) with
+  | None => [-2]
+  | Some (o, t) => o ++ [-1] ++ t
+  end.
+
 (* flat result for the correspondence check: out ++ [-1] ++ temp *)
 Definition setup_flat (name : list Z) : list Z :=
   let (o, t) := setup_names name in o ++ [-1] ++ t.
